@@ -93,6 +93,18 @@ CHECKS["C04"] = dict(
          "(DESIGN.md C04 limits). Planner runs are sampled (environments, seeds, budgets).",
     technique="TLA+ spec of the comparator + TLC; state-graph replay; TLC trace validation of recorded cost reports",
     design="3/C04")
+CHECKS["C13"] = dict(
+    level="model_checking",
+    text="TLC exhaustively checks a TLA+ transcription of Grid/GridN/GridB (two-step create/add protocol, remove, update, "
+         "clear; 1-D/2-D/3-D boxes with cells on, inside and outside the bounds, interior limits 1..2d, count-dependent "
+         "priorities, both functor assignments) against neighbour, component, count, border, queue-partition and top "
+         "invariants. Every transition of the dumped graphs, pairs, and random walks are replayed on the real templates (ASan, "
+         "negative, +-10^6 and reflected coordinates) against TLC's full observation table. Random recorded histories (dense, "
+         "hash-colliding, far) are validated by TLC against the same specification.",
+    note="Documented protocol assumed (createCell immediately followed by add for adjacent cells; top* only on non-empty heaps). "
+         "Replay bounded to boxes of <= 12 coordinates; traces reach ~36 live cells; 3-D in the thorough tier.",
+    technique="TLA+ spec + TLC; state-graph scenario replay; TLC trace validation",
+    design="3/C13")
 CHECKS["C19"] = dict(
     level="model_checking",
     text="Protocol model of the motion counters at the code's atomicity checked by TLC over all interleavings (atomic form "
